@@ -704,6 +704,7 @@ pub fn units() -> Vec<Unit> {
             ExternFn("EncryptedDataPayload::validate_mic", "EncryptedDataPayload.validate_mic", &[("self", "EncryptedDataPayload"), ("crypto", "DefaultCrypto"), ("fcnt", "u32")], "bool"),
             ExternFn("Fhdr::fcnt", "Fhdr.fcnt", &[("self", "Fhdr")], "u16"),
             ExternFn("Fhdr::f_opts", "Fhdr.f_opts", &[("self", "Fhdr")], "[u8]"),
+            ExternFn("Fhdr::dev_addr", "Fhdr.dev_addr", &[("self", "Fhdr")], "DevAddr"),
             ExternFn("DecryptedDataPayload::decrypt_in_place", "RxBytes.decrypt_in_place", &[("bytes", "RxBytes"), ("nwk", "Option<DefaultCrypto>"), ("app", "Option<DefaultCrypto>"), ("fcnt", "u32")], "Result<DecryptedDataPayload, Error>"),
             ExternFn("DecryptedDataPayload::fhdr", "DecryptedDataPayload.fhdr", &[("self", "DecryptedDataPayload")], "Fhdr"),
             ExternFn("DecryptedDataPayload::f_port", "DecryptedDataPayload.f_port", &[("self", "DecryptedDataPayload")], "Option<u8>"),
@@ -1358,6 +1359,8 @@ structure DefaultCrypto where
 structure Fhdr where
   fcnt : Int
   f_opts : List Int
+  /-- builder Y — `dev_addr()`: the DevAddr field of the frame header -/
+  dev_addr : DevAddr
   deriving DecidableEq, Repr
 /-- a byte string `EncryptedDataPayload::parse` accepted: what `handle_rx` reads of it, and for which
 (crypto context, 32-bit counter) its MIC verifies -/
